@@ -170,6 +170,14 @@ FixBegin ==
   /\ fixPhase' = E.fixPhase /\ skip' = Range(E.skip) /\ lastPS' = <<0, 0>> /\ normDone' = FALSE /\ lastPre' = FALSE
   /\ UNCHANGED <<toks, stale, indentFresh>>
 
+\* the token list changed between two observed actions (something other than a rule's update() or the phase-1 clean-up
+\* rewrote it): reported, and the model continues from the list as it now is
+Unobserved ==
+  /\ E.e = "Unobserved"
+  /\ Chk("C18_NoUnobservedChange", FALSE)
+  /\ toks' = E.toks /\ stale' = TRUE
+  /\ UNCHANGED <<fixPhase, skip, lastPS, indentFresh, normDone, lastPre>>
+
 FixEnd ==
   /\ E.e = "FixEnd"
   /\ Chk("C18_NoUnobservedChange", toks = E.toks)
@@ -234,7 +242,7 @@ End ==
   /\ Same
 
 Next == /\ l <= Len(Traces[tid].ev)
-        /\ (Parse \/ FixStep \/ SetIndentStep \/ IdxStep \/ AnalyzeStep \/ NormStep \/ FixBegin \/ FixEnd \/ Reparse \/ FreshCheck \/ Probe \/ Crash \/ Hang \/ Machinery \/ Other \/ End)
+        /\ (Parse \/ FixStep \/ SetIndentStep \/ IdxStep \/ AnalyzeStep \/ NormStep \/ FixBegin \/ FixEnd \/ Unobserved \/ Reparse \/ FreshCheck \/ Probe \/ Crash \/ Hang \/ Machinery \/ Other \/ End)
         /\ l' = l + 1 /\ tid' = tid
 
 Spec == Init /\ [][Next]_vars
